@@ -422,9 +422,37 @@ pub fn only_sequences_advanced(before: &Obs, after: &Obs) -> bool {
         }
         something = true;
     }
-    let strip = |o: &Obs| -> Vec<(String, Vec<u8>, Vec<u8>)> { o.records.iter().filter(|r| r.0 != "T_SEQUENCE" && r.0 != "T_CONFIG").cloned().collect() };
+    // MCP servers: a re-applied "create / update and release" pushes the released value into the server's history list a
+    // second time; equal once history entries with the same value id are counted once
+    let mcp_dedup = |o: &Obs| -> Vec<(String, String)> {
+        o.mcp
+            .iter()
+            .map(|(k, v)| {
+                let mut j: serde_json::Value = serde_json::from_str(v).unwrap_or(serde_json::Value::Null);
+                if let Some(h) = j.get_mut("histories").and_then(|h| h.as_array_mut()) {
+                    let mut seen = std::collections::BTreeSet::new();
+                    h.retain(|e| seen.insert(e.get("id").and_then(|x| x.as_u64()).unwrap_or(0)));
+                }
+                (k.clone(), j.to_string())
+            })
+            .collect()
+    };
+    let mcp_reapplied = before.mcp != after.mcp;
+    if mcp_reapplied {
+        if mcp_dedup(before) != mcp_dedup(after) {
+            return false;
+        }
+        something = true;
+    }
+    let strip = |o: &Obs| -> Vec<(String, Vec<u8>, Vec<u8>)> { o.records.iter().filter(|r| r.0 != "T_SEQUENCE" && r.0 != "T_CONFIG" && !(mcp_reapplied && r.0.contains("MCP_SERVER"))).cloned().collect() };
     if strip(before) != strip(after) {
         return false;
+    }
+    if mcp_reapplied {
+        let mk = |o: &Obs| -> Vec<Vec<u8>> { o.records.iter().filter(|r| r.0.contains("MCP_SERVER")).map(|r| r.1.clone()).collect() };
+        if mk(before) != mk(after) {
+            return false;
+        }
     }
     let keys = |o: &Obs, t: &str| -> Vec<Vec<u8>> { o.records.iter().filter(|r| r.0 == t).map(|r| r.1.clone()).collect() };
     if keys(before, "T_CONFIG") != keys(after, "T_CONFIG") {
@@ -1576,6 +1604,24 @@ fn without_repeated_history(o: &Obs) -> (Obs, Vec<String>) {
             keys.push(k.clone());
         }
     }
+    // MCP servers: a re-applied "create / update and release" lists the released value twice
+    let mut mcp_changed = false;
+    for (k, v) in o.mcp.iter_mut() {
+        let mut j: serde_json::Value = serde_json::from_str(v).unwrap_or(serde_json::Value::Null);
+        if let Some(h) = j.get_mut("histories").and_then(|h| h.as_array_mut()) {
+            let mut seen = std::collections::BTreeSet::new();
+            let before = h.len();
+            h.retain(|e| seen.insert(e.get("id").and_then(|x| x.as_u64()).unwrap_or(0)));
+            if h.len() != before {
+                keys.push(format!("mcp {}", k));
+                mcp_changed = true;
+                *v = j.to_string();
+            }
+        }
+    }
+    if mcp_changed {
+        o.records.retain(|r| !r.0.contains("MCP_SERVER"));
+    }
     (o, keys)
 }
 
@@ -1934,6 +1980,9 @@ pub async fn exec_c08(script: Value) -> ExecResult {
             let mut f2 = f2;
             l2.records.retain(|r| r.0 != "T_CONFIG");
             f2.records.retain(|r| r.0 != "T_CONFIG");
+            if keys.iter().any(|k| k.starts_with("mcp ")) {
+                l2.records.retain(|r| !r.0.contains("MCP_SERVER"));
+            }
             if l2 == f2 { Some(keys) } else { None }
         };
         if !ok {
